@@ -305,6 +305,33 @@ def oracle(ctx):
             if real != exp:
                 ctx.violation('TemplateLoader.load: first match along the search path / default extension only for dot-less names / same '
                               'instance for the same name', {k: case[k] for k in ('search_path', 'files', 'ext', 'loads')}, expected=exp, actual=real)
+        # (2b) the public loader with formats: the instance belongs to the (name, format) pair - one name loaded as a page template
+        # and as a text template gives two objects of the two classes, each the same on every later load
+        from chameleon import PageTemplateLoader
+        from chameleon.zpt.template import PageTemplateFile as _PTF, PageTextTemplateFile as _PTTF
+        fdir = os.path.join(d, 'formats')
+        os.makedirs(fdir, exist_ok=True)
+        for nm in ('note.txt', 'page.pt'):
+            with open(os.path.join(fdir, nm), 'w') as f:
+                f.write('<p>${v}</p>')
+        for _ in range(ctx.budget(20, 300)):
+            loader = PageTemplateLoader([fdir])
+            seq = [(ctx.rng.choice(['note.txt', 'page.pt']), ctx.rng.choice([None, 'xml', 'text'])) for _ in range(ctx.rng.randint(2, 6))]
+            seenobj = {}
+            ctx.count('evaluations')
+            nt += 1
+            for nm, fmt in seq:
+                t = loader.load(nm, fmt) if fmt else loader.load(nm)
+                kind = fmt or 'xml'
+                want_cls = _PTTF if kind == 'text' else _PTF
+                prev = seenobj.setdefault((nm, kind), t)
+                out = t(v='<x>')
+                want_out = b'<p><x></p>' if kind == 'text' else '<p>&lt;x&gt;</p>'
+                if type(t) is not want_cls or prev is not t or out != want_out:
+                    ctx.violation('PageTemplateLoader.load(name, format): the instance must be of the format\'s class and the same for the same '
+                                  '(name, format)', {'loads': seq, 'at': [nm, fmt]}, expected={'class': want_cls.__name__, 'out': repr(want_out)},
+                                  actual={'class': type(t).__name__, 'same_instance': prev is t, 'out': repr(out)})
+                    break
         # (3) load: looks next to the template first
         from chameleon import PageTemplateFile
         for i in range(ctx.budget(30, 400)):
